@@ -86,6 +86,10 @@ def run_case(case, ctx):
         if d:
             bad.append({'sig': '2d:section-differs-from-2d-codec-image', 'detail': 'read_subplane(full): %s (rate %s bs %s shape %s)' % (d, rate, bs, D.shape)})
         ops = [('get_trace', (i,)) for i in range(nT)] + reads.ops_2d(nT, nZ, bs, rng, 40)
+        # windows with one bound only (each bound is optional on its own)
+        for _ in range(4):
+            t_, k_ = rng.randrange(nT), rng.randrange(1, nZ) if nZ > 1 else 1
+            ops += [('get_trace', (t_, k_)), ('get_trace', (t_, None, k_))]
         b, k = reads.check_ops(r, ops, lambda op: reads.expected_2d(img, op), tag='2d:')
         bad += b
         n += k
